@@ -88,9 +88,26 @@ fn draw_dir(rng: &mut Rng, sw: &Swarm) -> String {
 }
 
 /// Value of an `export_to` expression for a type called `name`.
+/// An equivalent spelling of a relative path (same file after normalisation).
+fn respell(rng: &mut Rng, path: &str) -> String {
+    let (dir, file) = match path.rfind('/') {
+        Some(i) => (&path[..=i], &path[i + 1..]),
+        None => ("", path),
+    };
+    match rng.below(6) {
+        0 => format!("./{path}"),
+        1 => format!("{dir}internal/../{file}"),
+        2 => format!("{dir}./{file}"),
+        3 if !dir.is_empty() => format!("tmp/../{path}"),
+        _ => path.to_string(),
+    }
+}
+
 fn draw_export_to(rng: &mut Rng, sw: &Swarm, name: &str, shared: &[String]) -> String {
     if sw.shared_files && !shared.is_empty() && rng.pct(55) {
-        return rng.pick(shared).clone();
+        let p = rng.pick(shared).clone();
+        // types sharing a file need not spell its path the same way
+        return if sw.dotted { respell(rng, &p) } else { p };
     }
     let dir = draw_dir(rng, sw);
     match rng.below(10) {
@@ -293,7 +310,7 @@ pub fn draw_universe(rng: &mut Rng, sw: &Swarm, n_syn: usize) -> Universe {
         let mut hs: Vec<usize> = (0..corpus::DER_HANDLES).collect();
         // the literal family has a `../` escape of its own
         if !sw.escapes {
-            hs.retain(|h| *h < corpus::L0_);
+            hs.retain(|h| !(corpus::L0_..=corpus::L4_).contains(h));
         }
         if !sw.blank_docs {
             // D2 stays usable (it is alone in its file), nothing to remove
@@ -611,6 +628,26 @@ pub fn gen_c06(seed: u64) -> Plan {
     finish(b, seed, "C06", "histories", phases, 0, false)
 }
 
+/// A previous simulated process that left output behind: the realistic source of "stale"
+/// files (exactly what an earlier run of the same or a smaller program wrote).
+fn previous_run(b: &mut Base, default_abs: &str, with_custom: bool, weights: (u32, u32, u32)) -> Phase {
+    let n = b.rng.range(1, 3);
+    let mut ops = vec![];
+    for _ in 0..n {
+        let ty = *b.rng.pick(&b.uni.pool);
+        let custom: Vec<String> = if with_custom { b.custom.clone() } else { vec![] };
+        ops.push(draw_op(&mut b.rng, &custom, &b.cwd, default_abs, ty, weights));
+    }
+    Phase {
+        fresh_process: true,
+        threads: vec![ops],
+        chooser: Chooser::Scripted { script: vec![] },
+        obstacles: vec![],
+        retry_failed: false,
+        queue_workers: 0,
+    }
+}
+
 /// C05: several threads exporting types that share files.
 pub fn gen_c05(seed: u64) -> Plan {
     let mut b = draw_base(
@@ -634,7 +671,7 @@ pub fn gen_c05(seed: u64) -> Plan {
         threads.push(ops);
     }
     let chooser = draw_chooser(&mut b.rng, sched_seed(seed, 0), nthreads);
-    let phases = vec![Phase {
+    let mut phases = vec![Phase {
         fresh_process: true,
         threads,
         chooser,
@@ -642,6 +679,10 @@ pub fn gen_c05(seed: u64) -> Plan {
         retry_failed: false,
         queue_workers: 0,
     }];
+    if b.rng.pct(25) {
+        let prev = previous_run(&mut b, &default_abs, false, (4, 4, 2));
+        phases.insert(0, prev);
+    }
     finish(b, seed, "C05", "threads", phases, 0, false)
 }
 
@@ -714,7 +755,7 @@ pub fn gen_files(seed: u64, property: &str) -> Plan {
         threads.push(ops);
     }
     let chooser = draw_chooser(&mut b.rng, sched_seed(seed, 0), nthreads);
-    let phases = vec![Phase {
+    let mut phases = vec![Phase {
         fresh_process: true,
         threads,
         chooser,
@@ -723,6 +764,10 @@ pub fn gen_files(seed: u64, property: &str) -> Plan {
         queue_workers: 0,
     }];
     let visit_seed = if b.rng.pct(50) { mix(&[seed, 0x7151]) | 1 } else { 0 };
+    if b.rng.pct(25) {
+        let prev = previous_run(&mut b, &default_abs, true, (0, 5, 4));
+        phases.insert(0, prev);
+    }
     finish(b, seed, property, "files", phases, visit_seed, false)
 }
 
@@ -747,8 +792,8 @@ pub fn gen_c17(seed: u64) -> Plan {
         let free: Vec<usize> = (0..SYN_SLOTS)
             .filter(|s| b.uni.table.syn[*s].ident.is_empty() && s % 8 != 4)
             .collect();
-        if free.len() >= 2 {
-            let (up, parent) = (free[0], free[1]);
+        if free.len() >= 3 {
+            let (up, parent, grand) = (free[0], free[1], free[2]);
             b.uni.table.syn[up] = SynSpec {
                 ident: "AboveRoot".into(),
                 path: Some("../../../../../../../../../up/AboveRoot.ts".into()),
@@ -768,8 +813,18 @@ pub fn gen_c17(seed: u64) -> Plan {
                 body,
                 deps,
             };
+            // two levels above the failing leaf: the error has to travel up through a
+            // dependency that itself only fails because of its own dependency
+            b.uni.table.syn[grand] = SynSpec {
+                ident: "Grand".into(),
+                path: Some("Grand.ts".into()),
+                body: "{ mid: NeedsAboveRoot, }".into(),
+                deps: vec![parent],
+            };
             extra.push(up as Ty);
             extra.push(parent as Ty);
+            extra.push(grand as Ty);
+            extra.push(grand as Ty);
         }
     }
     let two = b.rng.pct(15);
